@@ -80,21 +80,26 @@ func TestFixedD9Int64TTL(t *testing.T) {
 }
 
 // D25 (known finding): with id injection at write, a fact carrying a different _id panics.
-func TestReplayD25InjectIdOverwritePanics(t *testing.T) {
+func TestFixedD25InjectIdConflictIsAnError(t *testing.T) {
 	old := SystemParameters.IdInjectionTime
 	SystemParameters.IdInjectionTime = InjectIdAtWrite
 	defer func() { SystemParameters.IdInjectionTime = old }()
 	ctx, loc := indexedLoc(t, "d25")
 	defer func() {
-		if r := recover(); r == nil {
-			t.Fatalf("expected the known panic (finding D25) - the defect seems to be gone: update known_findings.json")
+		if r := recover(); r != nil {
+			t.Fatalf("a fact carrying a different _id panicked again (D25): %v", r)
 		}
 	}()
-	loc.AddFact(ctx, "a", mapJSv(`{"_id":"b","x":1}`))
+	if _, err := loc.AddFact(ctx, "a", mapJSv(`{"_id":"b","x":1}`)); err == nil {
+		t.Fatalf("a fact carrying a different _id was accepted")
+	}
+	if _, err := loc.AddFact(ctx, "c", mapJSv(`{"_id":"c","x":1}`)); err != nil {
+		t.Fatalf("a fact carrying its own _id was refused: %v", err)
+	}
 }
 
-// D39 (known finding): Location.SetProp / RemProp ignore the write key.
-func TestReplayD39SetPropIgnoresWriteKey(t *testing.T) {
+// D39 (repaired): Location.SetProp / RemProp ignored the write key.
+func TestFixedD39SetPropRemPropCheckTheWriteKey(t *testing.T) {
 	ctx, loc := indexedLoc(t, "d39")
 	if err := loc.SetProp(ctx, "", "writeKey", "secret"); err != nil {
 		t.Fatal(err)
@@ -103,21 +108,16 @@ func TestReplayD39SetPropIgnoresWriteKey(t *testing.T) {
 		t.Fatalf("write key not enforced on AddFact?")
 	}
 	// no key presented:
-	if err := loc.SetProp(ctx, "", "writeKey", "mine"); err != nil {
-		t.Fatalf("SetProp refused without the key: the known finding D39 seems to be gone: %v", err)
+	if err := loc.SetProp(ctx, "", "writeKey", "mine"); err == nil {
+		t.Fatalf("SetProp overwrote the write key without the key (D39)")
 	}
-}
-
-func TestReplayD39RemPropIgnoresWriteKey(t *testing.T) {
-	ctx, loc := indexedLoc(t, "d39b")
-	if err := loc.SetProp(ctx, "", "writeKey", "secret"); err != nil {
-		t.Fatal(err)
+	if err := loc.RemProp(ctx, "", "writeKey"); err == nil {
+		t.Fatalf("RemProp removed the write key without the key (D39)")
 	}
-	if err := loc.RemProp(ctx, "", "writeKey"); err != nil {
-		t.Fatalf("RemProp refused without the key: the known finding D39 seems to be gone: %v", err)
-	}
-	if _, err := loc.AddFact(ctx, "f", mapJSv(`{"x":1}`)); err != nil {
-		t.Fatalf("key should be cleared: %v", err)
+	// with the key:
+	ctx.WriteKey = "secret"
+	if err := loc.SetProp(ctx, "", "color", "blue"); err != nil {
+		t.Fatalf("SetProp refused with the right key: %v", err)
 	}
 }
 
